@@ -25,6 +25,7 @@ import SSEPyVerif.Proofs.Schemes.Prims
 import SSEPyVerif.Proofs.Schemes.Stamped
 import SSEPyVerif.Proofs.Schemes.StampedLevels
 import SSEPyVerif.Proofs.Schemes.DP17Cells
+import SSEPyVerif.Proofs.Schemes.SSE1Stamped
 namespace SSEPy.C04
 open SSEPy.Sch SSEPy.Sch.Chain
 
@@ -168,5 +169,14 @@ theorem DP17.cells_from_randomness (raw : RawCfg) (cfg : DP17Cfg) (hcfg : DP17.c
 theorem DP17.real_cells_start_with_draws (cfg : DP17Cfg) (lv : Leaves) (etag iv msg c : Bytes) (hiv : iv.length = 16)
     (h : cfg.rnd.encrypt lv.E etag iv msg = .ok c) : c.take 16 = iv :=
   ciphertext_starts_with_draw cfg.rnd lv.E etag iv msg c hiv h
+
+
+/-- SSE-1: every cell of the array `A` of the index `EDBSetup` returns is either a node ciphertext that starts with the 16
+    random bytes drawn for it in this run, or a random filler drawn in this run — for every configuration, key, database and
+    tape.  Identifiers, node keys and node addresses enter the array only as plaintexts of the randomized cipher; two set-ups
+    whose draws do not overlap share no node ciphertext. -/
+theorem SSE1.array_from_randomness (cfg : SSE1Cfg) (lv : Leaves) (K1 K2 K3 K4 : Bytes) (db : DB) (t t' : Tape) (edb : SSE1EDB)
+    (h : SSE1.setup cfg lv [K1, K2, K3, K4] db t = .ok (edb, t')) : ∀ c ∈ edb.A, FromTape t c :=
+  SSE1.setup_cells_from cfg lv K1 K2 K3 K4 db t t' edb h
 
 end SSEPy.C04
